@@ -1,4 +1,5 @@
 import Proofs.RepEq
+import Proofs.MapOrderLemmas
 /-!
 # The value operations of the evaluator respect representation equivalence (helper lemmas for C18)
 -/
@@ -302,6 +303,24 @@ theorem isNil_rel {u u' : GoVal} (hu : Unw u) (hu' : Unw u') (h : RepEq d u u') 
   · rfl
   · cases u <;> cases u' <;> simp_all [rigidHead, isNil]
 
+/-- The order of `SortedMapKeys` looks at the keys only, and `normKVs` keeps them: entry lists with
+    the same normal form are sorted alike (or both are outside the model). -/
+theorem sortedMapEntries_norm_rel {kvs kvs' : List (GoVal × GoVal)} (hn : normKVs d kvs = normKVs d kvs') :
+    (∃ es es', (MapOrder.sortedMapEntries kvs : Res Cause _) = .ok es ∧
+        (MapOrder.sortedMapEntries kvs' : Res Cause _) = .ok es' ∧ normKVs d es = normKVs d es') ∨
+    (∃ w, (MapOrder.sortedMapEntries kvs : Res Cause _) = .unmodelled w ∧
+        (MapOrder.sortedMapEntries kvs' : Res Cause _) = .unmodelled w) := by
+  have hk : ∀ kv : GoVal × GoVal, ((fun kv : GoVal × GoVal => (kv.1, norm d kv.2)) kv).1 = kv.1 := fun _ => rfl
+  have hs : (MapOrder.sortedMapEntries (normKVs d kvs) : Res Cause _) = MapOrder.sortedMapEntries (normKVs d kvs') := by rw [hn]
+  rw [normKVs_eq_map, normKVs_eq_map, MapOrder.sortedMapEntries_map_keep _ hk, MapOrder.sortedMapEntries_map_keep _ hk] at hs
+  rcases MapOrder.sortedMapEntries_cases (ε := Cause) kvs with ⟨_, h1⟩ | ⟨_, w, h1⟩ <;>
+    rcases MapOrder.sortedMapEntries_cases (ε := Cause) kvs' with ⟨_, h2⟩ | ⟨_, w', h2⟩ <;>
+    rw [h1, h2] at hs <;> simp only [Res.bind_ok, Res.bind_unmodelled, Res.ok.injEq] at hs
+  · exact .inl ⟨_, _, h1, h2, by rw [normKVs_eq_map, normKVs_eq_map, hs]⟩
+  · cases hs
+  · cases hs
+  · injection hs with hs; subst hs; exact .inr ⟨w, h1, h2⟩
+
 /-! ## Loop items -/
 
 theorem mkPair_norm (k v : GoVal) : (mkPair k v).norm d = .slice .any [k.norm d, v.norm d] := by
@@ -320,17 +339,24 @@ theorem loopItems_unw_rel {u u' : GoVal} (hu : Unw u) (hu' : Unw u') (h : RepEq 
     cases u' <;> simp [seqElems?] at hs <;> subst hs <;> exact .inl ⟨_, _, rfl, rfl, hn⟩
   | map kt vt kvs =>
     rcases norm_inv_map hu'.noDrop h with rfl | ⟨_, vt', kvs', rfl, _, hn⟩
-    · exact .inl ⟨_, _, rfl, rfl, rfl⟩
-    · refine .inl ⟨_, _, rfl, rfl, ?_⟩
-      simp only [normList_eq_map, List.map_map]
-      have : ∀ l : List (GoVal × GoVal), List.map (norm d ∘ fun kv => mkPair kv.1 kv.2) l
-          = List.map (fun kv => GoVal.slice .any [kv.1.norm d, kv.2]) (normKVs d l) := by
-        intro l
-        simp only [normKVs_eq_map, List.map_map]
-        apply List.map_congr_left
-        intro kv _
-        simp [mkPair_norm]
-      rw [this, this, hn]
+    · cases hl : loopItems (.map kt vt kvs) with
+      | ok xs => exact .inl ⟨xs, xs, rfl, rfl, rfl⟩
+      | _ => exact .inr ⟨rfl, by simp⟩
+    · simp only [loopItems]
+      rcases sortedMapEntries_norm_rel hn with ⟨es, es', h1, h2, hs⟩ | ⟨w, h1, h2⟩
+      · rw [h1, h2]
+        refine .inl ⟨_, _, rfl, rfl, ?_⟩
+        simp only [normList_eq_map, List.map_map]
+        have : ∀ l : List (GoVal × GoVal), List.map (norm d ∘ fun kv => mkPair kv.1 kv.2) l
+            = List.map (fun kv => GoVal.slice .any [kv.1.norm d, kv.2]) (normKVs d l) := by
+          intro l
+          simp only [normKVs_eq_map, List.map_map]
+          apply List.map_congr_left
+          intro kv _
+          simp [mkPair_norm]
+        rw [this, this, hs]
+      · rw [h1, h2]
+        exact .inr ⟨rfl, by simp⟩
   | _ =>
     have := norm_inv_rigid (by simp [rigidHead]) hu'.noDrop h
     subst this
